@@ -1,7 +1,7 @@
 (* C08 -- set / confirm / retry, as a monitor over the outputs of one set call, event by event.
    Safety reading of the property: what may be emitted at the call and at each timer expiry. *)
 From Coq Require Import ZArith List Bool Arith.
-From PV Require Import Model.ParamSet.
+From PV Require Import Model.ParamSet Model.ParamSetHop.
 Import ListNotations.
 Open Scope Z_scope.
 
@@ -72,3 +72,15 @@ Definition C08_statement : Prop :=
   forall tracking t req retries evs,
     in_range t req = true -> req <> tv t ->
     P08 tracking t req retries evs (fst (run_set tracking t req retries evs)) = true.
+
+(* reports handled INSIDE a transmission step (while the request is being built): the finer model is the coarse one on the
+   history in which such a report comes right after that step, so every such history is accepted by the monitor too *)
+Definition C08_hop_refines_statement : Prop :=
+  forall tracking t req retries during0 evs,
+    run_set_hop true tracking t req retries during0 evs =
+    run_set tracking t req retries (map Report during0 ++ flatten evs).
+Definition C08_hop_statement : Prop :=
+  forall tracking t req retries during0 evs,
+    in_range t req = true -> req <> tv t ->
+    P08 tracking t req retries (map Report during0 ++ flatten evs)
+        (fst (run_set_hop true tracking t req retries during0 evs)) = true.
